@@ -320,6 +320,37 @@ func suiteC13(r *Run) {
 		}
 	}
 	_ = tls.VersionTLS12
+	// only "https" counts as secure: a base URL whose scheme is anything else (also "HTTP", "Https" written
+	// in a struct literal, "ws", or empty) must not let credentials that require transport security through
+	for _, scheme := range []string{"HTTP", "Http", "hTTps", "ws", "h2c", "", "httpss"} {
+		for _, streaming := range []bool{false, true} {
+			svr := &scriptServer{}
+			hm := newHTTPMem(svr)
+			hm.ch.BaseURL = &url.URL{Scheme: scheme, Host: "mem.test", Path: "/"}
+			tc := &testCreds{secure: true, md: map[string]string{"authorization": "Bearer top-secret"}}
+			var err error
+			if !streaming {
+				err = hm.ch.Invoke(context.Background(), mUnary, &Msg{}, &Msg{}, grpc.PerRPCCredentials(tc))
+			} else {
+				var cs grpc.ClientStream
+				cs, err = hm.ch.NewStream(context.Background(), descSStream, mSStream, grpc.PerRPCCredentials(tc))
+				if err == nil {
+					cs.SendMsg(&Msg{})
+					cs.CloseSend()
+					var m Msg
+					err = cs.RecvMsg(&m)
+				}
+			}
+			c := map[string]interface{}{"transport": "http", "scheme": scheme, "streaming": streaming, "creds": "require transport security"}
+			r.Eval(fmt.Sprint("odd-scheme", scheme, streaming), true)
+			r.Count("e2e:odd-scheme")
+			if err == nil || hm.tr.Trips() > 0 || tc.calls != 0 {
+				r.Violate("creds/insecure-not-blocked", "if they require transport security and the HTTP base URL is not https, the call fails before any request is issued",
+					sprintf("base URL scheme %q: err=%v, round trips %d, credential consulted %d", scheme, err, hm.tr.Trips(), tc.calls), c, canonErr(err))
+			}
+		}
+	}
+
 }
 
 type countingRT struct {
